@@ -274,13 +274,17 @@ def _copy_layer_to_x_sparse(
                 src_dataset = src_grp[el]
                 dtype = src_dataset.dtype
                 chunks = src_dataset.chunks
+                if 0 in src_dataset.shape:
+                    # an empty dataset cannot be chunked
+                    chunks = None
                 dst_grp.create_dataset(
                     el,
                     shape=src_dataset.shape,
                     chunks=chunks,
                     dtype=dtype)
                 if chunks is None:
-                    dst_grp[el] = src_dataset[()]
+                    if src_dataset.size > 0:
+                        dst_grp[el][...] = src_dataset[()]
                 else:
                     for i0 in range(0, src_dataset.shape[0], chunks[0]):
                         i1 = min(src_dataset.shape[0], i0+chunks[0])
